@@ -312,15 +312,25 @@ def _buffers(st):
 
 def anchor_entry(eng, st, names):
     for ref, f in _buffers(st):
-        st.ghost['anchors:' + ref] = [f['i'].z]
+        st.ghost['anchors:' + ref] = list(st.ghost.get('anchors:' + ref, [])) + [f['i'].z]
         st.fact(JT(sl(f['Q'].z, f['i'].z, f['i'].z)) == Empty(Str))
 
 
 def anchor_loop(eng, st):
     for ref, f in _buffers(st):
         st.ghost['trail:' + ref] = []
-        st.ghost['anchors:' + ref] = list(st.ghost.get('anchors:' + ref, [])) + [f['i'].z]
-        st.fact(JT(sl(f['Q'].z, f['i'].z, f['i'].z)) == Empty(Str))
+        prev = list(st.ghost.get('anchors:' + ref, []))
+        Q, ih = f['Q'].z, f['i'].z
+        st.ghost['anchors:' + ref] = prev + [ih]
+        st.fact(JT(sl(Q, ih, ih)) == Empty(Str))
+        # chain instances between the earlier anchors and the loop-head cursor
+        for x in range(len(prev)):
+            for y in range(x + 1, len(prev)):
+                a, b = prev[x], prev[y]
+                cond = And(0 <= a, a <= b, b <= ih)
+                st.fact(Implies(cond, JT(sl(Q, a, ih)) == Concat(JT(sl(Q, a, b)), JT(sl(Q, b, ih)))))
+                for hk in MOVE_IMAGE_HOOKS:
+                    hk(st, cond, JT(sl(Q, a, ih)), JT(sl(Q, a, b)), JT(sl(Q, b, ih)))
 
 
 REG.entry_hooks.append(anchor_entry)
@@ -354,11 +364,12 @@ def move_facts(eng, st, binding, pre):
         trail = list(st.ghost.get('trail:' + ref, []))
         st.ghost['trail:' + ref] = (trail + [i0])[-6:]
         for a in list(st.ghost.get('anchors:' + ref, [])) + [p for p in trail if not p.eq(i0)]:
-            st.fact(Implies(And(0 <= a, a <= i0, i0 <= i1, i1 <= n),
+            # s[a:c] == s[a:b] + s[b:c] for 0 <= a <= b <= c (python slices clamp, so also beyond the end)
+            st.fact(Implies(And(0 <= a, a <= i0, i0 <= i1),
                             JT(sl(Q, a, i1)) == Concat(JT(sl(Q, a, i0)), JT(sl(Q, i0, i1)))))
             st.fact(Implies(And(0 <= a), JT(sl(Q, a, a)) == Empty(Str)))
             for hk in MOVE_IMAGE_HOOKS:
-                hk(st, And(0 <= a, a <= i0, i0 <= i1, i1 <= n), JT(sl(Q, a, i1)), JT(sl(Q, a, i0)), JT(sl(Q, i0, i1)))
+                hk(st, And(0 <= a, a <= i0, i0 <= i1), JT(sl(Q, a, i1)), JT(sl(Q, a, i0)), JT(sl(Q, i0, i1)))
 
 
 MOVE_IMAGE_HOOKS = []      # homomorphic images of the additivity instances (e.g. NW), registered by other domains
